@@ -69,6 +69,10 @@ def zstd_close_rules(m: Model, r: Report, rid: str) -> None:
     """_ZstdFileHandler.close: queue handler closed, listener stopped (drained) iff it runs, then flush + close on every path.  Shared by C17 (the
     log is complete and readable) and C15 (closing the log is the last bookkeeping step of a run)."""
     zc = m.require_function(f"{LOG}._ZstdFileHandler.close")
+    from sa.util import subst_locals as _slz0
+    import copy as _cpz
+    zc = _cpz.copy(zc)
+    zc.node = ast.fix_missing_locations(_slz0(zc.node, zc.node))      # local aliases of self.queue_listener (assignment / walrus) resolved
     gz = CFG(zc.node)
     fclose = {n.id for n in gz.nodes.values() if n.kind == "stmt" and n.ast is not None and ("self.file.close()" in ast.unparse(n.ast) or "self.file.flush()" in ast.unparse(n.ast))}
     stops = {n.id for n in gz.nodes.values() if n.ast is not None and (("queue_listener.stop()" in ast.unparse(n.ast) and n.kind == "stmt") or
@@ -82,12 +86,15 @@ def zstd_close_rules(m: Model, r: Report, rid: str) -> None:
     qh = {n.id for n in gz.nodes.values() if n.kind == "stmt" and n.ast is not None and "self.queue_handler.close()" in ast.unparse(n.ast)}
     r.check(bool(qh), rid, f"{zc.qualname}#queue-handler-closed", "the queue handler must be closed so that no record is enqueued after the file is finalised", loc=zc.loc)
     # the listener is stopped iff it exists and runs
-    stop_stmts = [n.ast for n in gz.nodes.values() if n.kind == "stmt" and n.ast is not None and "queue_listener.stop()" in ast.unparse(n.ast)]
+    # (a local alias of the listener - `l = self.queue_listener` / a walrus - is resolved first)
+    from sa.util import subst_locals as _slz
+    zc_res = zc.node
+    stop_stmts = [n for n in ast.walk(zc_res) if isinstance(n, ast.Expr) and "queue_listener.stop()" in ast.unparse(n)]
     r.check(len(stop_stmts) == 1, rid, f"{zc.qualname}#listener-stopped", "the queue listener must be stopped (QueueListener.stop() drains the queue)", loc=zc.loc)
     r.check(bool(flushes_), rid, f"{zc.qualname}#file-flushed", "the file must be flushed before it is closed", loc=zc.loc)
     if len(stop_stmts) == 1:
         from sa.util import path_condition, truth_table
-        badq = truth_table(path_condition(zc.node, stop_stmts[0]), {"self.queue_listener": [None, "L"], "self.queue_listener._thread": [None, "T"]},
+        badq = truth_table(path_condition(zc_res, stop_stmts[0]), {"self.queue_listener": [None, "L"], "self.queue_listener._thread": [None, "T"]},
                            lambda a: a["self.queue_listener"] is not None and a["self.queue_listener._thread"] is not None)
         r.check(not badq, rid, f"{zc.qualname}#stop-condition", f"the queue listener is stopped on {badq}; it must be stopped (drained) exactly when it exists and its thread runs", loc=zc.loc)
     okz, pz = gz.must_pass(gz.entry, stops, fclose)
